@@ -310,6 +310,7 @@ func (p *Prog) encodeFunctionIn(fn *ssa.Function, ct *Contract, workdir string) 
 	if len(e.unsupported) > 0 {
 		return e
 	}
+	f.exitObligations()
 	// ensures
 	post := f.baseEnv(final)
 	post.old = f.entry
@@ -536,6 +537,9 @@ func (ct *Contract) specPatterns() []string {
 			add(c.Text)
 		}
 		for _, c := range l.Steps {
+			add(c.Text)
+		}
+		for _, c := range l.Exits {
 			add(c.Text)
 		}
 	}
